@@ -117,7 +117,7 @@ Rotate90  == \E x \in DOMAIN roots, k \in RotKs, ref \in RefPts, ip \in BOOLEAN 
                   Call(x, "rotate90", [a |-> p[1], b |-> p[2], k |-> k, ref |-> Cut(ref, NDof(heap, roots[x]))], ip)
 (* malformed arguments: rejected by both forms, nothing modified *)
 AllBadKinds == {"vector-too-long", "vector-of-strings", "factor-too-long", "factor-string", "ref-too-long",
-                "same-axis", "unknown-axis", "float-k"}
+                "same-axis", "unknown-axis", "float-k", "vector-complex", "factor-complex", "ref-complex", "rot-ref-complex"}
 Malformed == \E x \in DOMAIN roots, bad \in BadKinds, ip \in BOOLEAN :
                /\ hist' = Append(hist, Step(x, "malformed", [bad |-> bad], ip, "reject"))
                /\ UNCHANGED <<heap, roots>>
